@@ -200,7 +200,8 @@ func (fs *Filespace) ReadFile(srcPath string) (data []byte, err error) {
 	if file, err = getFileByPath(fs.root, srcPath); err != nil {
 		return nil, err
 	}
-	return file.getData(), nil
+	// hand out a copy: the caller may modify it, later writes must not show through
+	return append([]byte{}, file.getData()...), nil
 }
 
 // WriteFile write file data
@@ -217,6 +218,8 @@ func (fs *Filespace) WriteFile(destPath string, data []byte, filemode os.FileMod
 	if destDirPath, destNodeName, err = splitContainsPath(destPath); err != nil {
 		return err
 	}
+	// the stored content must not alias the caller's buffer
+	data = append([]byte{}, data...)
 	if dir, err = mkdirAllNodes(fs.root, destDirPath, filemode); err != nil {
 		return err
 	}
